@@ -20,17 +20,18 @@ def h(*parts) -> str:
 def frames():
     import pandas
 
-    d1 = pandas.DataFrame({"x": [1.0, 2.0, 4.0, 9.0, 3.0], "w": [2.0, 1.0, 0.5, 3.0, float("nan")],
+    d1 = pandas.DataFrame({"a b": [3.0, 1.0, 4.0, 1.0, 5.0], "x": [1.0, 2.0, 4.0, 9.0, 3.0], "w": [2.0, 1.0, 0.5, 3.0, float("nan")],
                            "A": pandas.Series(["p", "q", "r", "p", "q"], dtype=object), "B": pandas.Series(["u", "v", "u", "v", "u"], dtype=object),
                            "D": pandas.Series(["h", "h", "g", "g", "i"], dtype=object), "E": pandas.Series(["m", "n", "n", "m", "m"], dtype=object)})
-    d2 = pandas.DataFrame({"x": [10.0, -2.0, 0.0, 5.0], "w": [1.0, 1.5, 2.5, 0.25],
+    d2 = pandas.DataFrame({"a b": [2.0, 7.0, 1.0, 8.0], "x": [10.0, -2.0, 0.0, 5.0], "w": [1.0, 1.5, 2.5, 0.25],
                            "A": pandas.Series(["r", "q", "q", "p"], dtype=object), "B": pandas.Series(["v", "v", "u", "u"], dtype=object),
                            "D": pandas.Series(["g", "h", "i", "h"], dtype=object), "E": pandas.Series(["n", "m", "n", "m"], dtype=object)})
     return d1, d2
 
 
-FORMULA = "scale(x) + A + B + A:B + poly(w, 2) + C(B, contr.sum):x + A:D:E + B:D:E:A"
-UFORMULA = "center(x) + B + A + bs(w, df=3) + D:B:E + E:D:A:B"
+# K, LV and SC are objects of the caller's context: a list of knots, a list of levels and an array (they must never be written to)
+FORMULA = "scale(x) + A + B + A:B + poly(w, 2) + C(B, contr.sum):x + A:D:E + B:D:E:A + bs(w, knots=K, extrapolation='clip') + C(D, levels=LV) + I(x * SC[0]) + center(`a b`) + scale(`a b`)"
+UFORMULA = "center(x) + B + A + bs(w, df=3) + D:B:E + E:D:A:B + cr(x, knots=K, extrapolation='clip') + C(E, contr.treatment(base=LV2[1]), levels=LV2) + scale(`a b`) + poly(`a b`, 2) + I(`a b` + x)"
 
 
 def fp_frame(df) -> str:
@@ -73,14 +74,18 @@ class Session:
     def __init__(self):
         from formulaic import Formula, ModelSpec
 
+        import numpy
+
         self.d1, self.d2 = frames()
+        self.ctx = {"K": [1.5, 2.5], "LV": ["i", "h", "g"], "LV2": ["n", "m"], "SC": numpy.array([2.0, 3.0])}
         self.f = Formula(FORMULA)
         self.u = ModelSpec.from_spec(UFORMULA)
         self.spec1 = None
         self.heap = {}
 
     def heap_fps(self):
-        out = {"d1": fp_frame(self.d1), "d2": fp_frame(self.d2), "formula": fp_formula(self.f), "uspec": fp_spec(self.u)}
+        out = {"d1": fp_frame(self.d1), "d2": fp_frame(self.d2), "formula": fp_formula(self.f), "uspec": fp_spec(self.u),
+               "context": h(sorted((k, repr(v), type(v).__name__) for k, v in self.ctx.items()))}
         if self.spec1 is not None:
             out["spec1"] = fp_spec(self.spec1)
         return out
@@ -89,7 +94,7 @@ class Session:
         from formulaic import model_matrix
 
         if self.spec1 is None:
-            self.spec1 = model_matrix(FORMULA, self.d1, context={}).model_spec
+            self.spec1 = model_matrix(FORMULA, self.d1, context=self.ctx).model_spec
         return self.spec1
 
     def do(self, op):
@@ -97,25 +102,25 @@ class Session:
 
         drop = set()
         if op == "B1":
-            mm = model_matrix(FORMULA, self.d1, context={}, drop_rows=drop)
+            mm = model_matrix(FORMULA, self.d1, context=self.ctx, drop_rows=drop)
             if self.spec1 is None:
                 self.spec1 = mm.model_spec
         elif op == "B2":
-            mm = model_matrix(FORMULA, self.d2, context={}, drop_rows=drop)
+            mm = model_matrix(FORMULA, self.d2, context=self.ctx, drop_rows=drop)
         elif op == "F1":
-            mm = self.f.get_model_matrix(self.d1, context={}, drop_rows=drop)
+            mm = self.f.get_model_matrix(self.d1, context=self.ctx, drop_rows=drop)
         elif op == "U1":
-            mm = self.u.get_model_matrix(self.d1, context={}, drop_rows=drop)
+            mm = self.u.get_model_matrix(self.d1, context=self.ctx, drop_rows=drop)
         elif op == "U2":
-            mm = self.u.get_model_matrix(self.d2, context={}, drop_rows=drop)
+            mm = self.u.get_model_matrix(self.d2, context=self.ctx, drop_rows=drop)
         elif op == "R":
-            mm = self.ensure_spec1().get_model_matrix(self.d2, context={}, drop_rows=drop)
+            mm = self.ensure_spec1().get_model_matrix(self.d2, context=self.ctx, drop_rows=drop)
         elif op == "S":
-            mm = self.ensure_spec1().subset(["A"]).get_model_matrix(self.d1, context={}, drop_rows=drop)
+            mm = self.ensure_spec1().subset(["A"]).get_model_matrix(self.d1, context=self.ctx, drop_rows=drop)
         elif op == "P":
-            mm = pickle.loads(pickle.dumps(self.ensure_spec1())).get_model_matrix(self.d2, context={}, drop_rows=drop)
+            mm = pickle.loads(pickle.dumps(self.ensure_spec1())).get_model_matrix(self.d2, context=self.ctx, drop_rows=drop)
         elif op == "UPD":
-            mm = self.ensure_spec1().update(output="numpy").get_model_matrix(self.d2, context={}, drop_rows=drop)
+            mm = self.ensure_spec1().update(output="numpy").get_model_matrix(self.d2, context=self.ctx, drop_rows=drop)
         else:
             raise ValueError(op)
         return fp_matrix(mm, drop)
